@@ -1,9 +1,254 @@
-"""Facts read off the AST of /repo (part of translator T); emitted into Gen/Generated.v."""
+"""Facts read off the AST of /repo (part of translator T); emitted into Gen/Generated.v.
+
+* normalised statement skeletons of the run-time wrappers and their helpers, sync and async
+  (await erased, `_async` suffix erased, the two documented asymmetries folded into JUDGE):
+  consumed by the parity lemma (C13), the phase-order lemma (C16) and the finally-coverage
+  lemma (C11);
+* the operator tables of the re-evaluator, the exemption tuples of member selection, decorator
+  defaults, the SLOW expression, the repr limits, the list of assert statements.
+Fail-closed: anything unexpected raises Unsupported."""
 import ast
+import copy
 
 from py2coq import Unsupported, cstr
 
 
+# --------------------------------------------------------------------------- skeletons
+class _Norm(ast.NodeTransformer):
+    def __init__(self, sigs):
+        self.sigs = sigs
+
+    def visit_Await(self, node):
+        return self.visit(node.value)
+
+    def visit_AsyncFunctionDef(self, node):
+        new = ast.FunctionDef(name=node.name, args=node.args, body=node.body, decorator_list=node.decorator_list,
+                              returns=None, type_comment=None)
+        return self.generic_visit(ast.copy_location(new, node))
+
+    def visit_Name(self, node):
+        if node.id.endswith("_async"):
+            node.id = node.id[:-len("_async")]
+        return node
+
+    def visit_Call(self, node):
+        self.generic_visit(node)
+        f = node.func
+        if isinstance(f, ast.Name) and f.id in self.sigs:
+            names = self.sigs[f.id]
+            kws = {}
+            for i, a in enumerate(node.args):
+                if i >= len(names):
+                    raise Unsupported("too many positionals in call of %s" % f.id)
+                kws[names[i]] = a
+            for k in node.keywords:
+                if k.arg is None:
+                    raise Unsupported("**kwargs in call of %s" % f.id)
+                kws[k.arg] = k.value
+            kws.pop("func", None)   # the sync helpers take the function for their error text only
+            node.args = []
+            node.keywords = [ast.keyword(arg=k, value=kws[k]) for k in sorted(kws)]
+        return node
+
+
+def _is_call_to(node, dotted):
+    try:
+        return ast.unparse(node.func) == dotted
+    except Exception:
+        return False
+
+
+def _is_raise_valueerror(st):
+    return isinstance(st, ast.Raise) and isinstance(st.exc, ast.Call) and isinstance(st.exc.func, ast.Name) \
+        and st.exc.func.id == "ValueError"
+
+
+def _judge(fn_expr, kwargs_expr):
+    return ast.Call(func=ast.Name(id="JUDGE", ctx=ast.Load()), args=[fn_expr, kwargs_expr], keywords=[])
+
+
+def _fold_block(stmts):
+    """Fold the sync-only rejection and the async-only awaiting of coroutine conditions/captures."""
+    out = []
+    i = 0
+    while i < len(stmts):
+        st = stmts[i]
+        # R1 (sync): if inspect.iscoroutinefunction(X): raise ValueError(..)
+        if isinstance(st, ast.If) and isinstance(st.test, ast.Call) and _is_call_to(st.test, "inspect.iscoroutinefunction") \
+                and len(st.body) == 1 and _is_raise_valueerror(st.body[0]) and not st.orelse:
+            i += 1
+            continue
+        # R3 (async): if iscoroutinefunction(X): T = X(**K) else: W = X(**K); if iscoroutine(W): V = W else: V = W; [T = V]
+        if isinstance(st, ast.If) and isinstance(st.test, ast.Call) and _is_call_to(st.test, "inspect.iscoroutinefunction") \
+                and len(st.body) == 1 and isinstance(st.body[0], ast.Assign) and st.orelse:
+            target = st.body[0].targets[0]
+            call = st.body[0].value
+            if not (isinstance(call, ast.Call) and len(call.keywords) == 1 and call.keywords[0].arg is None):
+                raise Unsupported("async judge pattern (call) at line %d" % st.lineno)
+            oe = st.orelse
+            ok = (len(oe) in (2, 3) and isinstance(oe[0], ast.Assign) and ast.dump(oe[0].value) == ast.dump(call)
+                  and isinstance(oe[1], ast.If) and _is_call_to(oe[1].test, "inspect.iscoroutine"))
+            if not ok:
+                raise Unsupported("async judge pattern (else) at line %d" % st.lineno)
+            out.append(ast.Assign(targets=[target], value=_judge(call.func, call.keywords[0].value), lineno=0))
+            i += 1
+            continue
+        # R2 (sync): V = X(**K) ; if inspect.iscoroutine(V): raise ValueError ; [T = V]
+        if isinstance(st, ast.Assign) and isinstance(st.value, ast.Call) and len(st.value.keywords) == 1 \
+                and st.value.keywords[0].arg is None and not st.value.args and i + 1 < len(stmts):
+            nxt = stmts[i + 1]
+            if isinstance(nxt, ast.If) and isinstance(nxt.test, ast.Call) and _is_call_to(nxt.test, "inspect.iscoroutine") \
+                    and len(nxt.body) == 1 and _is_raise_valueerror(nxt.body[0]) and not nxt.orelse:
+                target = st.targets[0]
+                j = i + 2
+                # optional copy "T = V" right after (captures): fold into the target
+                if j < len(stmts) and isinstance(stmts[j], ast.Assign) and isinstance(stmts[j].value, ast.Name) \
+                        and isinstance(target, ast.Name) and stmts[j].value.id == target.id:
+                    target = stmts[j].targets[0]
+                    j += 1
+                out.append(ast.Assign(targets=[target], value=_judge(st.value.func, st.value.keywords[0].value), lineno=0))
+                i = j
+                continue
+        out.append(st)
+        i += 1
+    return out
+
+
+def _fold(node):
+    for field in ("body", "orelse", "finalbody"):
+        if hasattr(node, field) and isinstance(getattr(node, field), list):
+            new = _fold_block(getattr(node, field))
+            setattr(node, field, new)
+            for ch in new:
+                _fold(ch)
+    if isinstance(node, ast.Try):
+        for h in node.handlers:
+            _fold(h)
+    return node
+
+
+def _strip(node):
+    """drop docstrings and asserts' messages"""
+    for n in ast.walk(node):
+        if hasattr(n, "body") and isinstance(n.body, list):
+            n.body = [s for s in n.body if not (isinstance(s, ast.Expr) and isinstance(s.value, ast.Constant)
+                                                and isinstance(s.value.value, str))] or [ast.Pass()]
+        if isinstance(n, ast.Assert):
+            n.msg = None
+    return node
+
+
+def _async_capture_tail(node):
+    """async capture: `if corofn: D[k] = JUDGE else ...` is folded by R3 with target D[k]; the sync
+    one assigns `captured` then `D[k] = captured` which R2 folds as well.  Nothing to do here."""
+    return node
+
+
+def skeleton(fn, sigs):
+    fn = copy.deepcopy(fn)
+    _strip(fn)
+    fn = _Norm(sigs).visit(fn)
+    _fold(fn)
+    ast.fix_missing_locations(fn)
+    lines = []
+    for st in fn.body:
+        lines.extend(ast.unparse(st).splitlines())
+    for ln in lines:
+        if '"' in ln and ("\\" in ln):
+            raise Unsupported("skeleton line with escapes: %r" % ln)
+    # message texts are not part of the skeleton
+    out = []
+    for ln in lines:
+        out.append(_mask_strings(ln))
+    return out
+
+
+def _mask_strings(ln):
+    res, i, n = [], 0, len(ln)
+    while i < n:
+        ch = ln[i]
+        if ch in "'\"":
+            q = ch
+            j = i + 1
+            while j < n and ln[j] != q:
+                j += 2 if ln[j] == "\\" else 1
+            body = ln[i + 1:j]
+            # keep short identifier-like literals (attribute names, dict keys), mask prose
+            if len(body) <= 32 and all(c.isalnum() or c in "_" for c in body):
+                res.append("'" + body + "'")
+            else:
+                res.append("'...'")
+            i = j + 1
+        else:
+            res.append(ch)
+            i += 1
+    return "".join(res)
+
+
+def module_sigs(tree):
+    sigs = {}
+    for node in tree.body:
+        if isinstance(node, (ast.FunctionDef, ast.AsyncFunctionDef)):
+            sigs[node.name] = [a.arg for a in node.args.args]
+    return sigs
+
+
+def find_nested(fn, name, want_async):
+    """The nested def `name` inside fn that is async / not async (first in source order)."""
+    for node in ast.walk(fn):
+        if node is fn:
+            continue
+        if isinstance(node, ast.AsyncFunctionDef if want_async else ast.FunctionDef) and node.name == name:
+            return node
+    raise Unsupported("nested %s def %s not found in %s" % ("async" if want_async else "sync", name, fn.name))
+
+
+def find_top(tree, name):
+    for node in tree.body:
+        if isinstance(node, (ast.FunctionDef, ast.AsyncFunctionDef)) and node.name == name:
+            return node
+    raise Unsupported("function %s not found" % name)
+
+
+def coq_lines(name, lines):
+    return "Definition %s : list string := [\n  %s\n]." % (name, ";\n  ".join(cstr_safe(l) for l in lines))
+
+
+def cstr_safe(s):
+    return '"' + s.replace('"', "'") + '"'
+
+
+def init_wrapper(fn):
+    """the sync wrapper inside the `if is_init:` branch of _decorate_with_invariants"""
+    for node in fn.body:
+        if isinstance(node, ast.If) and isinstance(node.test, ast.Name) and node.test.id == "is_init":
+            for st in node.body:
+                if isinstance(st, ast.FunctionDef) and st.name == "wrapper":
+                    return st, node.orelse
+    raise Unsupported("is_init branch not found")
+
+
 def generate(trees, parse) -> str:
     out = []
-    return "\n".join(out)
+    path = "icontract/_checkers.py"
+    if path not in trees:
+        trees[path] = parse(path)
+    tree, _ = trees[path]
+    sigs = module_sigs(tree)
+    dec = find_top(tree, "decorate_with_checker")
+    out.append("(* skeletons of the run-time wrappers (await, async and the _async suffix erased; sync-only\n"
+               "   rejection and async-only awaiting of coroutine conditions folded into JUDGE) *)")
+    out.append(coq_lines("skel_checker_sync", skeleton(find_nested(dec, "wrapper", False), sigs)))
+    out.append(coq_lines("skel_checker_async", skeleton(find_nested(dec, "wrapper", True), sigs)))
+    for base in ("_assert_preconditions", "_capture_old", "_assert_postconditions"):
+        out.append(coq_lines("skel%s_sync" % base, skeleton(find_top(tree, base), sigs)))
+        out.append(coq_lines("skel%s_async" % base, skeleton(find_top(tree, base + "_async"), sigs)))
+    inv = find_top(tree, "_decorate_with_invariants")
+    initw, rest = init_wrapper(inv)
+    out.append(coq_lines("skel_init_wrapper", skeleton(initw, sigs)))
+    holder = ast.Module(body=rest, type_ignores=[])
+    out.append(coq_lines("skel_invariant_sync", skeleton(find_nested(holder, "wrapper", False), sigs)))
+    out.append(coq_lines("skel_invariant_async", skeleton(find_nested(holder, "wrapper", True), sigs)))
+    out.append(coq_lines("skel_new_wrapper", skeleton(find_nested(find_top(tree, "_decorate_new_with_invariants"),
+                                                                  "wrapper", False), sigs)))
+    return "\n\n".join(out) + "\n"
